@@ -344,7 +344,10 @@ def tmpl_harnesses(rows, family, prop, what):
         plain = r["harness"] == "%s_%s" % (family, r["name"])  # the unit / list input variants are thorough-tier
         tier = "quick" if ((quick is None or r["name"] in quick) and (plain or (prop in ("C17", "C10") and r["harness"].endswith("_inlist")))) else "thorough"
         desc = "%s: source `%s`%s, input value %s — %s" % (r["name"], r["source"], (" (variant of `%s`)" % r["original"]) if r["original"] else "", r["input"], what)
-        out.append(H(r["harness"], "tmpl", tier, desc, cbmc_args=FIELD_SENS, timeout=TMPL_TIMEOUT, jobs_weight=4 if family == "layout" else 1.3, shard_size=6))
+        h = H(r["harness"], "tmpl", tier, desc, cbmc_args=FIELD_SENS, timeout=TMPL_TIMEOUT, jobs_weight=4 if family == "layout" else 1.3, shard_size=6)
+        if family == "layout":
+            h["all_tags"] = True
+        out.append(h)
     return out
 
 
@@ -395,7 +398,7 @@ def _c18(rows):
 # < ~2500 CPU-seconds. Everything else a property owns runs in the thorough tier.
 QUICK_SETS = {
     "C01": "prog_value_sub prog_if_unit prog_side_effect prog_or_skip prog_and_skip prog_ident prog_and_eval_inlist prog_cond_arms_inlist prog_if_else_t prog_ident_arith_inlist".split(),
-    "C05": "prog_value_sub prog_if_unit prog_and_skip prog_side_effect prog_if_else_t prog2_add prog2_value_sub prog2_if_else_t prog2_and_tis prog2_list_pairs".split(),
+    "C05": "prog_value_sub prog_if_unit prog_and_skip prog_side_effect prog_if_else_t prog2_add prog2_value_sub prog2_if_else_t prog2_and_tis".split(),
     "C06": ("step_put step_push_value step_update_value step_end_side_effect step_jump_to step_reapply step_end_expression step_make_pair step_type_of "
             "c08_op_add c08_op_divide c10_truth_jump_if_true c10_truth_and disp_access_pair disp_access_expression disp_apply_pair disp_apply_expression "
             "prog_if_else_t prog_if_unit prog_chain_nodefault_miss").split(),
@@ -406,12 +409,12 @@ QUICK_SETS = {
             "disp_access_symbol disp_access_expression disp_access_symbol_list disp_access_byte_list disp_access_pair disp_access_number disp_access_range "
             "disp_apply_char_list disp_apply_expression disp_apply_pair disp_apply_symbol disp_apply_number").split(),
     "C10": ("c10_truth_jump_if_true c10_truth_jump_if_false c10_truth_and c10_truth_or c10_truth_not c10_truth_tis c10_truth_xor "
-            "prog_and_skip prog_and_skip_inlist prog_or_skip prog_or_skip_inlist prog_and_eval_inlist prog_or_eval_inlist prog_if_unit prog_unless_f prog_cond_arms_inlist prog_cond_arms_f_inlist").split(),
-    "C17": "disp_apply_external disp_empty_apply_external prog_ident prog_ident_inlist prog_ident_two_inlist prog_ident_arith_inlist prog_side_effect_host_inlist prog_and_skip prog_cond_arms_inlist".split(),
+            "prog_and_skip prog_and_skip_inlist prog_or_skip prog_or_skip_inlist prog_and_eval_inlist prog_if_unit prog_cond_arms_inlist").split(),
+    "C17": "disp_apply_external disp_empty_apply_external prog_ident prog_ident_inlist prog_ident_absent_inlist prog_ident_two_inlist prog_ident_arith_inlist prog_side_effect_host_inlist prog_and_skip prog_cond_arms_inlist".split(),
     # (the two recorded C18 findings' witness pairs take > 13 min to FAIL: thorough tier; the quick tier replays
     # their committed counterexamples natively)
     "C18": "layout_v_if_else_tight layout_v_list3_line_comments layout_v_list3_lines_trailing layout_v_list3_trailing".split(),
-    "C20": "prog2_add prog2_value_sub prog2_if_else_t prog2_and_tis prog2_list_pairs".split(),
+    "C20": "prog2_add prog2_value_sub prog2_if_else_t prog2_and_tis".split(),
 }
 
 # harnesses that did not finish in 900 s on an idle machine (24 Sep measurements)
